@@ -55,7 +55,8 @@ entry point) and that `Core.exec` agrees with the reference machine.  For that m
 /-- **C01 on the core, for every program, every argument vector, word size `w ≥ 2`, stack size and
 build mode**: if the source semantics runs the program (its `int` parameters bound to the
 command-line arguments) to completion with output `tr` (possibly ending in a division by zero,
-which only checked builds define) and the stack holds the frame peak, the emitted machine
+or in a callee's frame not fitting the stack, which
+only checked builds define) and the stack holds the frame peak of the entry point, the emitted machine
 performs exactly `tr` followed by the terminal flag(s) on its committed timeline, and ends in
 the terminal loop. -/
 theorem core_semantic_preservation (cf : Core.Config) (args : List Int) (pr : Core.CProg) (hw : 2 ≤ cf.w)
@@ -63,11 +64,12 @@ theorem core_semantic_preservation (cf : Core.Config) (args : List Int) (pr : Co
     (hwf : Core.wfProg pr = true) (hlen : args.length = pr.params.length)
     (fuel : Nat) (env' : Core.Env) (tr : List Ev) (res : Core.Res)
     (hex : Core.srcRun cf fuel args pr = some (env', tr, res))
-    (hck : res = .div0 → cf.checked = true)
+    (hck : res = .div0 ∨ res = .ovf → cf.checked = true)
+    (hpkF : res = .ovf → ∀ fd ∈ pr.funs, Core.pkS cf.w (Core.entryOff cf.w fd.params) fd.body < 256 ^ cf.w)
     (hroom : Core.pkS cf.w (Core.entryOff cf.w pr.params) pr.body ≤ Core.roomOf cf args) :
     ∃ mEnd, Exec (sphinx (Core.coreProg cf pr)) (Core.coreInit cf args pr) (tr ++ Core.terminalEvs res)
       ⟨tntPc (Core.progLen cf.checked pr), mEnd⟩ :=
-  let ⟨m, h, _⟩ := Core.core_correct cf args pr hw hB hSE hwf hlen fuel env' tr res hex hck hroom
+  let ⟨m, h, _⟩ := Core.core_correct cf args pr hw hB hSE hwf hlen fuel env' tr res hex hck hpkF hroom
   ⟨m, h⟩
 
 /-- expressions: the emitted code computes `evalE` (the building block, for every placement) -/
